@@ -194,3 +194,52 @@ def liveness_on_failure(maxc, timeout=1.5):
     asyncio.run(main())
     return bool(verdict.get("served")) and "exc" in raised, dict(raised=raised.get("exc"), ticks=ticks[0],
                                                                  wall=round(time.time() - t0, 2))
+
+
+def liveness_sequential_drain(timeout=3.0):
+    """A sequential node becomes the best candidate while an async-thread node AND a thread node are running.  The drain
+    gives the hand to the event loop first (the async wait of the wait pair), so a heartbeat coroutine advances while both
+    nodes are in flight; each of them returns only once it has seen the heartbeat advance.  Returns (ok, detail)."""
+    ticks = [0]
+    progressed = threading.Event()
+    finished = threading.Event()
+    verdict = {}
+
+    def a_node():
+        verdict["a_served"] = progressed.wait(timeout)
+        return "a"
+
+    def t_node():
+        verdict["t_served"] = progressed.wait(timeout)
+        return "t"
+
+    def s_node():
+        return "s"
+    for f, nm in ((a_node, "a_node"), (t_node, "t_node"), (s_node, "s_node")):
+        f.__qualname__ = f.__name__ = nm
+    xa = xn(a_node, resource=Resource.async_thread, priority=3)
+    xt = xn(t_node, resource=Resource.thread, priority=2)
+    xs = xn(s_node, resource=Resource.thread, priority=1, is_sequential=True)
+
+    def describe():
+        return xa(), xt(), xs()
+    describe.__qualname__ = describe.__name__ = "live_seq"
+    d = threadsafe_make_dag(describe, 3, True)
+
+    async def heartbeat():
+        while not finished.is_set():
+            await asyncio.sleep(0.002)
+            ticks[0] += 1
+            if ticks[0] >= 5:
+                progressed.set()
+
+    async def main():
+        hb = asyncio.ensure_future(heartbeat())
+        r = await d()
+        finished.set()
+        await hb
+        return r
+    t0 = time.time()
+    r = asyncio.run(main())
+    ok = bool(verdict.get("a_served")) and bool(verdict.get("t_served"))
+    return ok, dict(result=r, ticks=ticks[0], served=dict(verdict), wall=round(time.time() - t0, 2))
